@@ -425,6 +425,33 @@ def rows(S):
 
     out.append(Row("dt0_adaptive with several initial values", "step-size helpers", si2, "ValueError", [], mode="raise"))
 
+    # (F32) the tolerances of dt0_adaptive are scalars or shaped like the flattened state
+    for which in ("atol", "rtol"):
+        def si_tol(it, which=which):
+            f = it.function_value(f"{STEPINIT}.dt0_adaptive")
+            ode = it.instantiate(it.class_value(PROBLEMS + ".JetOde"), [A("vf")], dict(jacobian=A("jac"), num_tcoeffs_in_args=1, tcoeff_indices_output=[1]), "<harness>")
+            kw = dict(error_contraction_rate=A("r"), rtol=arr("rtol"), atol=arr("atol"))
+            kw[which] = arr("bad")
+            it.call(f, [ode, (arr("u0"),), A("t0")], kw, "<harness>")
+
+        out.append(Row(f"dt0_adaptive: {which} neither a scalar nor shaped like the state", "step-size helpers", si_tol, "ValueError", ["bad"], sibling=f"dt0-tolerance-shape-{which}", cond_pred=compares_shape_of({"bad"})))
+
+    # (F31) grids are one-dimensional
+    def grid_fixed(it):
+        mk = it.function_value(f"{FIXED}.solve_fixed_grid")
+        strat = it.instantiate(it.class_value(EST + ".strategy_filter"), [], {}, "<harness>")
+        solver = it.instantiate(it.class_value(SOLVERS + ".solver"), [], dict(strategy=strat, constraint=A("c")), "<harness>")
+        solve = it.call(mk, [], {"solver": solver}, "<harness>")
+        it.call(solve, [arr("u")], {"grid": arr("bad")}, "<harness>")
+
+    out.append(Row("solve_fixed_grid: grid not one-dimensional", "grids", grid_fixed, "ValueError", ["bad"], sibling="grid-rank", cond_pred=compares_shape_of({"bad"})))
+
+    def grid_markov(it):
+        f = method(it, it.class_value(EST + ".MarkovSequence"), "from_grid")
+        call(it, f, prior=A("prior"), grid=arr("bad"), reverse=A("reverse"))
+
+    out.append(Row("MarkovSequence.from_grid: grid not one-dimensional", "grids", grid_markov, "ValueError", ["bad"], sibling="grid-rank", cond_pred=compares_shape_of({"bad"})))
+
     for rn, kw in (("jetexpand_ode_padded_scan", {"num": 3}), ("jetexpand_ode_unroll", {"num": 3}), ("jetexpand_ode_via_jvp", {"num": 3}), ("jetexpand_ode_doubling_unroll", {"num_doublings": 2})):
         def je(it, rn=rn, kw=kw):
             alg = it.call(it.function_value(f"{JETEXP}.{rn}"), [], kw, "<harness>")
